@@ -204,7 +204,8 @@ Definition value_eqb (x y : value) : bool :=
 
 Definition var_eqb (v w : var) : bool :=
   option_eqb value_eqb (vval v) (vval w) && option_eqb N.eqb (vloc v) (vloc w)
-  && Bool.eqb (vexp v) (vexp w) && option_eqb N.eqb (vro v) (vro w).
+  && Bool.eqb (vexp v) (vexp w) && option_eqb N.eqb (vro v) (vro w)
+  && Bool.eqb (vquirk v) (vquirk w).
 
 Definition mres_eqb (x y : mres) : bool :=
   match x, y with
@@ -383,6 +384,8 @@ Fixpoint cmd_safe (n : name) (c : cmd) : bool :=
   | CTypeset _ g _ _ m _ => negb (g && str_eqb m n)
   | CExport m _ | CReadonly m _ | CUnset m => negb (str_eqb m n)
   | CRead _ m _ => negb (str_eqb m n)
+  | CFor m _ body => negb (str_eqb m n) && forallb (cmd_safe n) body
+  | CReturn => true
   end.
 
 (* what the two observers show is the same (environments as sets) *)
@@ -396,3 +399,25 @@ Definition pobs_equiv (x y : pobs) : Prop :=
 (* the topmost context is a volatile one (what Scope::Volatile requires of get_or_new) *)
 Definition top_is_volatile (cs : list ctx) : bool :=
   match nth_error cs (length cs - 1) with Some CVolatile => true | _ => false end.
+
+(* ---- notions used in the statements about the environment ------------------------------- *)
+
+(* splitting at every [c] *)
+Fixpoint split_on (c : N) (acc : str) (x : str) : list str :=
+  match x with
+  | [] => [rev acc]
+  | d :: x => if N.eqb d c then rev acc :: split_on c [] x else split_on c (d :: acc) x
+  end.
+
+(* every environment in the trace is that of a state satisfying the invariant *)
+Definition env_ok (names : list name) (p : pobs) : Prop :=
+  match p with
+  | PEnv env =>
+      exists s1, Inv s1 /\ env = env_of_names names (env_c_strings s1) /\
+                 forall x, In x (env_c_strings s1) <->
+                           exists n v, get s1 n = Some v /\ env_entry n v = Some x
+  | PVars _ _ => True
+  end.
+
+(* the last assignment to [n] among the temporaries *)
+Definition last_temp (n : name) (temps : list (name * value)) : option value := assoc n (rev temps).
